@@ -70,7 +70,7 @@ CHECKS = {
         technique="Lean 4 proof (case analysis on exact int64 index arithmetic, handler-level theorem) + exhaustive boundary enumeration + differential correspondence",
         design="6/C08"),
     "C09": dict(
-        category="partial",
+        category="proof",
         text=("Lean 4 theorems for EVERY byte string over the lexer model (tied to tokenize() token for token on valid programs and on token- and byte-level "
               "mutants): each scanning step strictly shortens the input, so the scanner needs at most one step per byte and `lex` is a total function whose only "
               "failures are the three lexical errors (lexStep_progress, lexGo_fuel, lex_total); at most one token per byte plus EOF (lex_token_bound); the token list "
